@@ -980,6 +980,31 @@ class Engine:
             r = self.addr(("idx", self.deref(thisv), C(0)))
             self.emit(st, "CALL", name, [], thisv, loc=loc, extra={"ret": r, "fnid": (e.get("fn") or {}).get("id"), "rt": e.get("t"), "argvals": [], "native": True})
             return [(st, r)]
+        # abstract iterator positions (see exec_iterator_loop)
+        def itpos(x):
+            x = x[1] if isinstance(x, tuple) and x[:1] == ("addr",) else x
+            v = st.mem.get(x) if isinstance(x, tuple) else None
+            return v if isinstance(v, tuple) and v[:1] == ("iter",) else None
+        if short in ("operator*", "operator->") and not av and thisv is not None and itpos(thisv) is not None and itpos(thisv)[1] == "elem":
+            el = itpos(thisv)[2]
+            return [(st, el if short == "operator*" else self.addr(el))]
+        if short in ("operator!=", "operator==") and (len(av) == 2 or (len(av) == 1 and thisv is not None)):
+            xs = list(av) if len(av) == 2 else [thisv, av[0]]
+            ps_ = [itpos(x) for x in xs]
+            def is_end_of(t, X):
+                return isinstance(t, tuple) and t[:1] == ("ucall",) and t[2].split("::")[-1] in ("end", "cend") and t[4] is not None and (t[4] == self.addr(X) or t[4] == X)
+            for a_, b_ in ((0, 1), (1, 0)):
+                if ps_[a_] is not None:
+                    X = ps_[a_][2][2] if ps_[a_][1] == "elem" else ps_[a_][2]
+                    other = xs[b_]
+                    other_v = st.mem.get(other) if isinstance(other, tuple) and other[:1] in (("var",), ("tmp",)) else other
+                    if is_end_of(other_v, X) or (isinstance(other_v, tuple) and other_v[:2] == ("iter", "end") and other_v[2] == X):
+                        equal = ps_[a_][1] == "end"
+                        return [(st, C(1 if (equal == (short == "operator==")) else 0))]
+        if name in ("std::find_if", "std::find_if_not", "std::any_of", "std::none_of") and len(av) == 3:
+            r_ = self.native_find_if(st, name, av, loc, e)
+            if r_ is not None:
+                return r_
         fdecl = self.db.fn_by_id.get((e.get("fn") or {}).get("id")) if isinstance(e, dict) else None
         if short == "operator=" and not (name or "").startswith("std::") and (fdecl is None or (fdecl.get("defaulted") and "body" not in fdecl)) and len(av) == 1 and thisv is not None:
             # implicitly-defined / defaulted copy or move assignment: member-wise copy, yields the object assigned to
@@ -1002,6 +1027,48 @@ class Engine:
         vals = [self.load(st, a) if (isinstance(a, tuple) and a and a[0] in ("var", "tmp") and a in st.mem) else a for a in av]
         self.emit(st, "CALL", name, list(av), thisv, loc=loc, extra={"ret": r, "fnid": (e.get("fn") or {}).get("id"), "rt": e.get("t"), "argvals": vals, "ta": (e.get("fn") or {}).get("ta")})
         return [(st, r)]
+
+    def native_find_if(self, st, name, av, loc, e):
+        """std::find_if(c.begin(), c.end(), pred) with a lambda whose body is known: either no element satisfies the predicate and
+        end() is returned, or the result designates a generic element `elem` for which the predicate held (first such element)"""
+        first, last, pred = av
+        fv = st.mem.get(first) if isinstance(first, tuple) and first[:1] in (("var",), ("tmp",)) else first
+        if not (isinstance(fv, tuple) and fv[:1] == ("ucall",) and fv[2].split("::")[-1] in ("begin", "cbegin") and fv[4] is not None):
+            return None
+        X = self.deref(fv[4])
+        clo = st.mem.get(pred) if isinstance(pred, tuple) else None
+        if clo is None and isinstance(pred, tuple):
+            src = st.mem.get(("copyof", pred))
+            clo = st.mem.get(src) if src is not None else None
+        if not (clo and clo[0] == "closure"):
+            return None
+        want_true = name in ("std::find_if", "std::any_of")
+        outs = []
+        fr = self._fr(st, st.frames[max(st.frames)]) if st.frames else None
+        # not found
+        qa = st.clone()
+        ra = ("iter", "end", X)
+        ta = self.fresh("tmp", "iterator")
+        qa.mem[ta] = ra
+        self.emit(qa, "LOOPSKIP", X, loc=loc, extra={"algorithm": name})
+        self.emit(qa, "CALL", name, list(av), None, loc=loc, extra={"ret": ta, "native": True, "argvals": list(av)})
+        outs.append((qa, ta if name.startswith("std::find") else C(0 if name == "std::any_of" else 1)))
+        # found at a generic element
+        elem = ("elem", next(self.uid), X)
+        st.loopdepth += 1
+        self.emit(st, "LOOP_BEGIN", loc=loc, extra={"range": True, "algorithm": name})
+        self.emit(st, "RANGE", X, loc=loc)
+        for s2, rv in self.call_closure(st, self._fr(st, fr), clo, [], loc, prevals=[elem]):
+            c = truthy(rv)
+            if not self.assume(s2, c if want_true else neg(c), loc, kind="loop-cond"):
+                continue
+            self.emit(s2, "LOOP_END", loc=loc)
+            s2.loopdepth -= 1
+            tb = self.fresh("tmp", "iterator")
+            s2.mem[tb] = ("iter", "elem", elem)
+            self.emit(s2, "CALL", name, list(av), None, loc=loc, extra={"ret": tb, "native": True, "argvals": list(av)})
+            outs.append((s2, tb if name.startswith("std::find") else C(1 if name == "std::any_of" else 0)))
+        return outs
 
     def inline(self, st, fn, thisv, av, pmodes, loc, want_lv=False):
         """run callee body; returns list of (state, return term)"""
@@ -1081,10 +1148,12 @@ class Engine:
             outs.append(s)
         return outs
 
-    def call_closure(self, st, fr, clo, args, loc, callee_id=None):
+    def call_closure(self, st, fr, clo, args, loc, callee_id=None, prevals=None):
         lam = self._closures[clo[2]]
         if lam.get("generic"):
             spec = next((sp for sp in lam.get("specs", []) if sp["id"] == callee_id), None)
+            if spec is None and callee_id is None and len(lam.get("specs", [])) == 1:
+                spec = lam["specs"][0]
             if spec is None:
                 raise Inconclusive("generic lambda call without a matching instantiation at %s" % loc)
             lam = dict(lam)
@@ -1098,8 +1167,11 @@ class Engine:
         st.frames[fid] = f
         outs = []
         modes = ["lv" if ((p["t"] or {}).get("ref") or self.is_rec(p["t"] or {})) else "v" for p in lam["params"]]
-        for s, av in self.ev_args(st, fr, args, modes[:len(args)]):
+        for s, av in ([(st, list(prevals))] if prevals is not None else self.ev_args(st, fr, args, modes[:len(args)])):
             ff = s.frames[fid]
+            if prevals is not None:
+                # pre-evaluated operands are lvalues: by-value parameters receive the value read from them
+                av = [a if m == "lv" else (("rd", a) if isinstance(a, tuple) and a[:1] in (("elem",), ("fld",), ("idx",), ("deref",)) else a) for a, m in zip(av, modes)]
             for p, a, m in zip(lam["params"], av, modes):
                 if m == "lv":
                     ff.binds[p["d"]] = a
@@ -1457,6 +1529,10 @@ class Engine:
             mods, _ex = self.continuing_mods(s.get("body"))
             self.modified_vars(s.get("inc"), mods)
             self.modified_vars(s.get("c"), mods)
+            it = self.iterator_loop(s) if kind in ("for", "while") else None
+            if it is not None:
+                outs += self.exec_iterator_loop(q, fr, s, it, mods)
+                continue
             # --- path A: zero iterations
             qa = q.clone()
             fa = self._fr(qa, fr)
@@ -1520,6 +1596,84 @@ class Engine:
                 f.cleanups.pop()
             res.append(q)
         return res
+
+    # ---- loops that walk a container with an iterator: `for (it = c.begin(); it != c.end(); ++it)`, `while (it != c.end() && pred(*it)) ++it`
+    @staticmethod
+    def _strip_e(e):
+        while isinstance(e, dict) and (e.get("k") == "paren" or (e.get("k") in ("icast", "cast") and e.get("ck") in ("NoOp", "LValueToRValue", "ConstructorConversion", "UserDefinedConversion", "DerivedToBase")) or
+                                       (e.get("k") in ("mtemp", "bindtemp", "exprwc", "construct") and "e" in e)):
+            e = e["e"]
+        return e
+
+    def iterator_loop(self, s):
+        """(iterator variable expr, container expr, remaining conjunct or None) when the loop condition is `it != c.end()` [&& rest]"""
+        c = self._strip_e(s.get("c"))
+        rest = None
+        if isinstance(c, dict) and c.get("k") == "bin" and c.get("op") == "&&":
+            rest, c = c["r"], self._strip_e(c["l"])
+        if not (isinstance(c, dict) and c.get("k") == "call" and ((c.get("fn") or {}).get("n") or "").endswith("operator!=") and len(c.get("args") or []) == 2):
+            return None
+        a, b = [self._strip_e(x) for x in c["args"]]
+        for v, e in ((a, b), (b, a)):
+            if isinstance(v, dict) and v.get("k") == "ref" and v.get("dk") in ("local", "param") and isinstance(e, dict) and e.get("k") == "call" \
+                    and ((e.get("fn") or {}).get("n") or "").split("::")[-1] in ("end", "cend") and e.get("obj") is not None:
+                return v, e["obj"], rest
+        return None
+
+    def exec_iterator_loop(self, q, fr, s, it, mods):
+        """Abstracts the walk like a range-for: either the container is exhausted (the iterator ends at end()), or the loop is left
+        in a generic iteration with the iterator designating an arbitrary element `elem` (break / return / the remaining conjunct
+        of the condition turning false)."""
+        vexpr, cexpr, rest = it
+        outs = []
+        f = self._fr(q, fr)
+        pairs = [(q2, vlv, x) for q1, vlv in self.ev_lv(q, f, vexpr) for q2, x in self.ev_lv(q1, self._fr(q1, fr), cexpr)]
+        for q0, vlv, X in pairs:
+            # exhausted without leaving early
+            qa = q0.clone()
+            for d in mods:
+                lv = self._fr(qa, fr).binds.get(d)
+                if lv is not None and lv != vlv:
+                    qa.mem[lv] = ("havoc", next(self.uid), lv[2] if len(lv) > 2 else "v")
+            qa.mem[vlv] = ("iter", "end", X)
+            self.emit(qa, "LOOPSKIP", X, loc=s.get("loc"), extra={"iterator": True})
+            outs.append(qa)
+            # one generic iteration
+            qb = q0
+            for d in mods:
+                lv = self._fr(qb, fr).binds.get(d)
+                if lv is not None and lv != vlv:
+                    qb.mem[lv] = ("havoc", next(self.uid), lv[2] if len(lv) > 2 else "v")
+            qb.loopdepth += 1
+            self.emit(qb, "LOOP_BEGIN", loc=s.get("loc"), extra={"range": True, "iterator": True})
+            self.emit(qb, "RANGE", X, loc=s.get("loc"))
+            elem = ("elem", next(self.uid), X)
+            qb.mem[vlv] = ("iter", "elem", elem)
+            iters = [qb]
+            if rest is not None:
+                iters = []
+                for q2, c2 in self.ev(qb, self._fr(qb, fr), rest):
+                    c2 = truthy(c2)
+                    qx = q2.clone()
+                    if self.assume(qx, neg(c2), s.get("loc"), kind="loop-exit"):
+                        self.emit(qx, "LOOP_END", loc=s.get("loc"))
+                        qx.loopdepth -= 1
+                        outs.append(qx)
+                    if self.assume(q2, c2, s.get("loc"), kind="loop-cond"):
+                        iters.append(q2)
+            for q2 in iters:
+                for q3 in self.exec(q2, self._fr(q2, fr), s["body"]):
+                    broke = q3.status == "break"
+                    if q3.status in ("break", "continue"):
+                        q3.status = "run"
+                    if q3.status == "run":
+                        if not broke:
+                            q3.mem[vlv] = ("iter", "end", X)   # the walk went on to the end
+                        self._loop_end(q3, fr, mods - {d for d in mods if self._fr(q3, fr).binds.get(d) == vlv}, s, outs, havoc=not broke)
+                    else:
+                        q3.loopdepth -= 1
+                        outs.append(q3)
+        return outs
 
     def _loop_end(self, q, fr, mods, s, outs, havoc=True):
         f = self._fr(q, fr)
